@@ -8,12 +8,14 @@ CONSTANT Defect   \* "none": the definition.  Models of the defects found in the
                   \* that the monitor can fire on them (configs that EXPECT the violation):
                   \* "never_merged": a switch the merge forgets (result keeps the earlier source's value)
                   \* "shared_tags":  the result's tag map IS the earlier source's map, the later tags are copied into it
+                  \* "aliased_list": a result list built by appending onto the earlier source's slice (seeded C31-2)
 VARIABLES k, x, y, z, ph, out
 vars == <<k, x, y, z, ph, out>>
 
 Good(kk, a, b, c) ==
   [ab |-> Merge(kk, a, b), l |-> Merge(kk, Merge(kk, a, b), c), r |-> Merge(kk, a, Merge(kk, b, c)),
-   fs |-> Fold3(kk, a, b, c), dir |-> Fold3(kk, a, b, c), una |-> 1, unb |-> 1, un3 |-> <<1, 1, 1>>]
+   fs |-> Fold3(kk, a, b, c), dir |-> Fold3(kk, a, b, c), una |-> 1, unb |-> 1, un3 |-> <<1, 1, 1>>, unh |-> <<1, 1>>,
+   hb |-> Merge(kk, a, b), hx |-> Merge(kk, Merge(kk, a, b), c), hy |-> Merge(kk, Merge(kk, a, b), a)]
 
 Touched(a, b) == a[1] = 0 /\ ~Same("map", Merge("map", a, b), a)    \* copying b into a's own map changes a
 
@@ -23,6 +25,9 @@ ModelOut(kk, a, b, c) ==
   ELSE IF Defect = "shared_tags" /\ kk = "map"
     THEN [Good(kk, a, b, c) EXCEPT !.una = IF Touched(a, b) THEN 0 ELSE 1,
                                    !.un3 = <<IF a[1] = 0 /\ (Touched(a, b) \/ Touched(Merge(kk, a, b), c)) THEN 0 ELSE 1, 1, 1>>]
+  ELSE IF Defect = "aliased_list" /\ kk = "list"
+    \* the result list shares the earlier source's backing array: the later merge base+x overwrites the tail of base+z
+    THEN [Good(kk, a, b, c) EXCEPT !.hx = Merge(kk, a, b) \o [i \in 1..Len(c) |-> IF i <= Len(a) THEN a[i] ELSE c[i]]]
   ELSE Good(kk, a, b, c)
 
 Init == /\ k \in Kinds
